@@ -30,7 +30,7 @@ class Hist1Prop:
         return case
 
     def diff(self, case, model_ok, io):
-        rtol = self.RTOL if not case.get("tolerance") else Fraction(1, 10**11)
+        rtol = self.RTOL if not case.get("tolerance") else getattr(self, "TOL", Fraction(1, 10**11))
         keep = self.fields_for(case)
         return diff_outputs(model_ok, io["outs"], keep, rtol)
 
